@@ -6,12 +6,32 @@ import PromProofs.DbOps
 namespace Prom.Db
 open Prom.Intervals
 
+theorem tmod_nonpos_of_neg (t w : Int) (ht : t < 0) : t.tmod w ≤ 0 := by
+  have h := Int.tmod_nonneg (a := -t) w (by omega)
+  rw [Int.neg_tmod] at h
+  omega
+
 theorem lt_rangeFor (t w : Int) (hw : 0 < w) : t < rangeForTimestamp t w := by
-  unfold rangeForTimestamp
+  unfold rangeForTimestamp rangeStartForTimestamp
+  simp only []
   have h1 := Int.tmod_def t w
   have h2 := Int.tmod_lt_of_pos t hw
-  have : t.tdiv w * w = w * t.tdiv w := Int.mul_comm _ _
-  omega
+  have h3 := Int.lt_tmod_of_pos t hw
+  have hc : t.tdiv w * w = w * t.tdiv w := Int.mul_comm _ _
+  split
+  · rename_i hneg
+    have h4 := tmod_nonpos_of_neg t w hneg.1
+    have h5 := hneg.2
+    omega
+  · rename_i hneg
+    by_cases ht : t < 0
+    · have h5 : t.tmod w = 0 := by
+        by_cases h : t.tmod w = 0
+        · exact h
+        · exact absurd ⟨ht, h⟩ hneg
+      omega
+    · have h4 := Int.tmod_nonneg (a := t) w (by omega)
+      omega
 
 def cMaxt (d : Db) : Int := rangeForTimestamp d.minT d.cfg.chunkRange
 
